@@ -36,7 +36,7 @@ LowerAt(t)    == {i \in PosIds : pos[i].open /\ pos[i].lo = t}
 UpperAt(t)    == {i \in PosIds : pos[i].open /\ pos[i].up = t}
 
 TypeOK ==
-  /\ tc \in Ticks
+  /\ (tc \in Ticks \/ tc = -4)            \* an a -> b crossing of the lowest tick leaves the current tick one below it
   /\ \A i \in PosIds : pos[i].l >= 0 /\ pos[i].lo \in Ticks /\ pos[i].up \in Ticks /\ pos[i].lo < pos[i].up
                        /\ (~pos[i].open => pos[i].l = 0)
   /\ DOMAIN tk = Ticks /\ DOMAIN pos = PosIds
@@ -82,7 +82,7 @@ Modify(i, d) ==
 
 \* a -> b: crossing initialized tick t (t <= tc, nothing initialized in (t, tc]) leaves the current tick at t - 1
 CrossDown(t) ==
-  /\ t \in Ticks /\ t <= tc /\ t - 1 \in Ticks /\ Initialized(t)
+  /\ t \in Ticks /\ t <= tc /\ Initialized(t)
   /\ \A u \in Ticks : (t < u /\ u <= tc) => ~Initialized(u)
   /\ tc' = t - 1 /\ liq' = liq - tk[t].net
   /\ UNCHANGED <<tk, pos>>
@@ -96,7 +96,7 @@ CrossUp(t) ==
 
 \* the price moves to tick n without crossing an initialized tick (going down, ticks in (n, tc]; going up, in (tc, n])
 Glide(n) ==
-  /\ n \in Ticks
+  /\ (n \in Ticks \/ n = -4)
   /\ \A u \in Ticks : ((n < u /\ u <= tc) \/ (tc < u /\ u <= n)) => ~Initialized(u)
   /\ tc' = n
   /\ UNCHANGED <<liq, tk, pos>>
@@ -106,6 +106,7 @@ Next ==
   \/ \E i \in PosIds : Close(i)
   \/ \E i \in PosIds, d \in Int : Modify(i, d)
   \/ \E t \in Ticks : CrossDown(t) \/ CrossUp(t) \/ Glide(t)
+  \/ Glide(-4)
 
 \* for the inductive step: any state satisfying the invariant
 IndInit ==
